@@ -46,7 +46,7 @@ func main() {
 	if s := os.Getenv("VERIF_SEED"); s != "" {
 		o.seed, _ = strconv.Atoi(s)
 	}
-	o.timeout = 10 * time.Second
+	o.timeout = 15 * time.Second
 	if o.tier == "thorough" {
 		o.timeout = 60 * time.Second
 	}
